@@ -104,13 +104,17 @@ CallerPairing(drv, wire, cl) ==
         bad == {k \in 1..n :
                   LET c == cl.unit[k]
                       res == cl.results[k]
-                  IN IF c.query = 0 THEN res.k # "none"
+                  IN IF k <= Len(cmdpos) /\ wire[cmdpos[k]].outcome[1] = "broken" THEN res.k # "exc"
+                     ELSE IF c.query = 0 THEN res.k # "none"
                      ELSE ~(res.k = "resp" /\ res.cls = c.resp /\ k <= Len(cmdpos)
                             /\ <<res.raw[1], res.raw[2]>> \in WantRaw(drv, <<wire[cmdpos[k]].outcome[1], wire[cmdpos[k]].outcome[2]>>))}
     IN IF n # Len(cl.unit) THEN "missing-results"
        ELSE IF bad = {} THEN ""
        ELSE LET k == CHOOSE x \in bad : \A y \in bad : x <= y IN
-            IF cl.unit[k].query = 0 THEN "answer-for-command-without-answer"
+            \* the exchange with the gateway itself failed (connection reset): that is not something that happened on the
+            \* bus, and must not be handed to the caller as if it were
+            IF k <= Len(cmdpos) /\ wire[cmdpos[k]].outcome[1] = "broken" THEN "transport-failure-reported-as-bus-outcome"
+            ELSE IF cl.unit[k].query = 0 THEN "answer-for-command-without-answer"
             ELSE IF cl.results[k].k # "resp" THEN "no-response-object-for-query"
             ELSE IF cl.results[k].cls # cl.unit[k].resp THEN "response-not-typed-by-command:" \o cl.results[k].cls
             ELSE "answer-of-another-command-or-wrong-value"
